@@ -1,6 +1,7 @@
 package trzsz
 
 import (
+	"strings"
 	"bytes"
 	"fmt"
 	"io"
@@ -69,8 +70,24 @@ func vScenarioC19(rc *runCtx) {
 	serverKind := []string{"finishes", "cancels-early", "cancels-late", "keeps-sending", "goes-quiet"}[tp.Pick("c19.server", 4, 3, 2, 2, 2)]
 	veto := tp.Pick("c19.veto", 6, 1, 1) // 0 genuine header, 1 header + cancel sequence, 2 header + cannot open
 	ctrlC := tp.Pick("c19.ctrlc", 3, 1, 1)
-	haveFiles := !upload || tp.Bool("c19.files", 800)
-	rc.res.ClassKey = fmt.Sprintf("up=%v helper=%s server=%s veto=%d ctrlc=%d files=%v", upload, helperKind, serverKind, veto, ctrlC, haveFiles)
+	haveFiles := !upload || tp.Bool("c19.files", 700)
+	// nothing to upload: the file dialog opens. Either there is no dialog program (an error), or the user closes
+	// the dialog without choosing anything (a real child process that exits the way a cancelled dialog does)
+	userCancels := upload && !haveFiles && tp.Bool("c19.usercancel", 600)
+	if userCancels {
+		if dir := os.Getenv("PATH"); dir != "" && !strings.Contains(dir, ":") {
+			z := filepath.Join(dir, "zenity")
+			if os.WriteFile(z, []byte("#!/bin/sh\nexit 1\n"), 0755) == nil {
+				defer os.Remove(z)
+				rc.fault("chooser-closed-by-user")
+			} else {
+				userCancels = false
+			}
+		} else {
+			userCancels = false
+		}
+	}
+	rc.res.ClassKey = fmt.Sprintf("up=%v helper=%s server=%s veto=%d ctrlc=%d files=%v cancel=%v", upload, helperKind, serverKind, veto, ctrlC, haveFiles, userCancels)
 	rc.res.Scenario["case"] = rc.res.ClassKey
 
 	kbd, term := w.NewLink("kbd"), w.NewLink("term")
